@@ -104,3 +104,94 @@ pub fn run(ctx: &Ctx) -> (u64, u64) {
     });
     (execs.load(Relaxed), judged.load(Relaxed))
 }
+
+// Part (d): redirections on `exec` persist — also when `exec` has operands and the utility cannot
+// be invoked, which only an interactive shell survives (docs/src/builtins/exec.md: "This is done
+// even if there are operands, but the effect can be observed only when the utility cannot be
+// invoked and the shell does not exit"). Differential, no model: for every redirection list of up
+// to two redirections, the descriptor table after `exec LIST /no/such/utility` (and `exec LIST
+// nosuchcommand`, `command exec LIST /no/such/utility`) in an interactive shell equals the table
+// after the operand-less `exec LIST`, and a later command can use the descriptors.
+
+const D_REDIRS: [&str; 12] = ["3>/tmp/o", "3>>/tmp/o", "4</tmp/in", "5<>/tmp/rw", "3>&1", "6<&0", "1>/tmp/out", "3>/tmp/o 4>&3", "3</tmp/in 3<&-", "7>|/tmp/o", "2>/tmp/err", "4<<E\nbody\nE"];
+
+fn table_after(line: &str) -> (Option<String>, Option<String>, vsh::Run) {
+    let script = format!("fds before\n{line}\nfds after\np end\n");
+    let mut setup = Setup::script("");
+    setup.argv = vec!["yash".into(), "-i".into(), "-s".into()];
+    setup.stdin = Some(script.into_bytes());
+    setup.files.push(("/tmp/in".into(), b"data\n".to_vec(), 0o644));
+    let r = vsh::run_once(&setup, &Default::default());
+    let tr = r.all_trace();
+    // offsets are left out: the script texts and the diagnostics differ in length
+    let strip = |s: &str| -> String {
+        let mut out = String::new();
+        let mut skipping = false;
+        for ch in s.chars() {
+            if ch == '@' {
+                skipping = true;
+            } else if skipping && !ch.is_ascii_digit() {
+                skipping = false;
+            }
+            if !skipping {
+                out.push(ch);
+            }
+        }
+        out
+    };
+    let get = |tag: &str| tr.iter().find_map(|t| t.strip_prefix(&format!("fds {tag} ")).map(strip));
+    (get("before"), get("after"), r)
+}
+
+/// Returns the number of executions.
+pub fn run_d(ctx: &Ctx) -> u64 {
+    let mut lists: Vec<String> = D_REDIRS.iter().map(|s| s.to_string()).collect();
+    for a in &D_REDIRS[..11] {
+        for b in &D_REDIRS[..11] {
+            if a != b {
+                lists.push(format!("{a} {b}"));
+            }
+        }
+    }
+    let n = AtomicU64::new(0);
+    lists.par_iter().for_each(|list| {
+        // a here-document body follows the whole line
+        let (head, body) = match list.split_once('\n') {
+            Some((h, b)) => (h.to_string(), format!("\n{b}")),
+            None => (list.clone(), String::new()),
+        };
+        let _g = case_guard(format!("failed exec with {list}"));
+        let (_, reference, r0) = table_after(&format!("exec {head}{body}"));
+        n.fetch_add(1, Relaxed);
+        let Some(reference) = reference else {
+            ctx.violation("c09d:end", &format!("`exec {list}` ended the interactive shell: {:?} stderr={:?}", r0.end, r0.stderr), json!({"part": "d", "line": format!("exec {list}")}));
+            return;
+        };
+        for form in ["exec LIST /no/such/utility", "exec LIST nosuchcommand", "command exec LIST /no/such/utility"] {
+            let line = format!("{}{body}", form.replace("LIST", &head));
+            let (before, after, r) = table_after(&line);
+            n.fetch_add(1, Relaxed);
+            let case = json!({"part": "d", "line": line});
+            let Some(after) = after else {
+                ctx.violation("c09d:end", &format!("`{line}` ended the interactive shell: {:?} stderr={:?}", r.end, r.stderr), case);
+                continue;
+            };
+            if after != reference {
+                let undone = Some(&after) == before.as_ref();
+                ctx.violation(
+                    if undone { "c09d:failed-exec-undid-its-redirections" } else { "c09d:failed-exec-table" },
+                    &format!("interactive shell, `{line}`: descriptor table afterwards {after}, after the operand-less `exec {list}` {reference}"),
+                    case,
+                );
+            }
+        }
+    });
+    n.load(Relaxed)
+}
+
+pub fn replay_d(case: &serde_json::Value) -> bool {
+    let Some(line) = case["line"].as_str() else { return false };
+    let (b, a, r) = table_after(line);
+    println!("interactive shell, line:\n{line}\nbefore: {b:?}\nafter:  {a:?}\nend={:?}\nstderr={}", r.end, r.stderr);
+    true
+}
